@@ -2,6 +2,10 @@
 From Coq Require Import List String.
 Import ListNotations.
 Open Scope string_scope.
+Definition special_names : list string :=
+  ["V_ILLEGAL"; "V_ARGC"; "V_CONVFMT"; "V_FILENAME"; "V_FNR"; "V_FS"; "V_INPUTMODE"; "V_NF"; 
+   "V_NR"; "V_OFMT"; "V_OFS"; "V_ORS"; "V_OUTPUTMODE"; "V_RLENGTH"; "V_RS"; "V_RSTART"; 
+   "V_RT"; "V_SUBSEP"].
 Definition opcode_names : list string :=
   ["Nop"; "Num"; "Str"; "Dupe"; "Drop"; "Swap"; "Rote"; "Field"; 
    "FieldInt"; "FieldByName"; "FieldByNameStr"; "Global"; "Local"; "Special"; "ArrayGlobal"; "ArrayLocal"; 
